@@ -190,6 +190,9 @@ class ExecMixin(object):
             return
         if isinstance(t, ast.Attribute):
             base = self.ev(t.value, st)
+            if isinstance(base, VOpt):
+                self.safety(st, "AttributeError", z3.Not(base.isnone), node, "attribute store on None")
+                base = base.val
             if isinstance(base, VRef) and isinstance(st.heap[base.oid], HObj):
                 cell = st.heap[base.oid]
                 if cell.cls == "Scope":
@@ -216,7 +219,8 @@ class ExecMixin(object):
                     else:
                         k = self.want_str(idx, st, node)
                         st.heap[base.oid] = HDict(cell.ek, z3.Store(cell.keys, k, True),
-                                                  z3.Store(cell.vals, k, self.coerce(v, cell.ek, node)))
+                                                  z3.Store(cell.vals, k, self.coerce(v, cell.ek, node)),
+                                                  default=cell.default)
                     return
                 if isinstance(cell, HCList):
                     k = self.conc(idx)
@@ -259,7 +263,7 @@ class ExecMixin(object):
         return [(NORMAL, st, None)]
 
     def st_If(self, stmt, st):
-        c = z3.simplify(self.truth(self.ev(stmt.test, st), st))
+        c = z3.simplify(self.ev_truth(stmt.test, st))
         outs = []
         for taken, body, tag in ((c, stmt.body, "t"), (z3.Not(c), stmt.orelse, "f")):
             if not self.branch_feasible(st, taken):
@@ -364,8 +368,10 @@ class ExecMixin(object):
         items = None
         if isinstance(it, VTuple) and not (it.items and is_lit_str(it.items[0]) and it.items[0].e.as_string() == "$range"):
             items = it.items
-        elif isinstance(it, VRef) and isinstance(st.heap[it.oid], HCList) and spec is None:
-            items = st.heap[it.oid].items
+        elif isinstance(it, VRef) and isinstance(st.heap[it.oid], HCList) and (
+                spec is None or not st.heap[it.oid].items or any(isinstance(x, VRef) for x in st.heap[it.oid].items)):
+            items = st.heap[it.oid].items   # static list (always unrolled when it holds object references)
+            spec = None
         elif isinstance(it, VStr) and z3.is_string_value(it.e) and spec is None:
             items = [VStr(c) for c in it.e.as_string()]
         if items is not None and spec is None:
@@ -395,6 +401,17 @@ class ExecMixin(object):
         if isinstance(it, VStr):
             n = z3.Length(it.e)
             elem = lambda k: VStr(z3.SubString(it.e, k, 1))
+        elif isinstance(it, VRef) and isinstance(st.heap[it.oid], HDict) and st.heap[it.oid].items is None:
+            # iteration over the keys of a symbolic dict: an arbitrary finite list of its keys (order irrelevant to
+            # every contract that uses this); keys are non-empty strings (attribute names are identifiers)
+            d = st.heap[it.oid]
+            n = z3.Int(fresh_name("nkeys"))
+            karr = z3.Array(fresh_name("keys"), IntS, StrS)
+            st.assume(n >= 0)
+            st.qf.append(QFact(z3.IntVal(0), n, lambda i, d=d, karr=karr: z3.And(
+                z3.Select(d.keys, z3.Select(karr, i)), z3.Length(z3.Select(karr, i)) >= 1), "dict-keys"))
+            self.assumptions.add("iteration over a dict: an arbitrary list of its keys; keys are non-empty strings")
+            elem = lambda k, karr=karr: VStr(z3.Select(karr, k))
         elif isinstance(it, VRef):
             cell = self.as_hlist(st.heap[it.oid])
             n = cell.n
@@ -483,7 +500,8 @@ class ExecMixin(object):
                 return HObj("file", f)
             return HObj(cell.cls, dict((k, self.fresh_like(v, st, k)) for k, v in cell.f.items()))
         if isinstance(cell, HDict) and cell.items is None:
-            return HDict(cell.ek, z3.Array(fresh_name(nm + "_keys"), StrS, BoolS), z3.Array(fresh_name(nm + "_vals"), StrS, SORTS[cell.ek]))
+            return HDict(cell.ek, z3.Array(fresh_name(nm + "_keys"), StrS, BoolS),
+                         z3.Array(fresh_name(nm + "_vals"), StrS, SORTS[cell.ek]), default=cell.default)
         raise OutOfSubset("cannot havoc cell %r" % (cell,))
 
     def merge_at_loop(self, stmt, states):
@@ -603,7 +621,7 @@ class ExecMixin(object):
                 self.known_chars.add(z3.SubString(seqval.e, k, 1))
             feasible = True
         else:
-            c = self.truth(self.ev(stmt.test, b), b)
+            c = self.ev_truth(stmt.test, b)
             feasible = self.branch_feasible(b, c)
             b.assume(c)
         if feasible:
@@ -639,7 +657,7 @@ class ExecMixin(object):
                 x.assume(z3.SubString(seqval.e, 0, k) == seqval.e)
             ok = True
         else:
-            c = self.truth(self.ev(stmt.test, x), x)
+            c = self.ev_truth(stmt.test, x)
             ok = self.branch_feasible(x, z3.Not(c))
             x.assume(z3.Not(c))
         if ok:
